@@ -177,6 +177,14 @@ FSM_LOOP = dict(
             "rtr_socket->expire_interval, rtr_socket->retry_interval, __CPROVER_object_whole(&g_f)",
     invariants=FSM_INV_TEXT)
 
+VALIDATE_LOOP = dict(
+    function="pfx_table_validate_r", fingerprint=r"while \(!pfx_table_elem_matches", macro_headers=["spec/spec.h", "units/trie_spine_macros.h"],
+    symbols=["node", "lvl", "prefix", "prefix_len", "asn", "reason", "reason_len"], globals=["g_n", "g_nodes", "g_k", "g_q", "g_ql", "g_match", "g_data"],
+    assigns="node, lvl",
+    invariants="""(node != 0 && lvl < g_n && node == &g_nodes[lvl] && SP_COVERS(lvl) && reason == 0 && reason_len == 0 &&
+                  ((g_k < lvl && g_k < g_n && SP_COVERS(g_k)) ? !g_match[g_k] : 1))""",
+    decreases="g_n - lvl")
+
 UNITS = [
     # ------------------------------------------------------------------ state machine (C05, C07, C13)
     U(id="fsm", props=["C05", "C07", "C13"], file="units/fsm.c", entry="h_fsm", enforce=["rtr_fsm_start"],
@@ -366,6 +374,10 @@ UNITS = [
       enforce=["trie_lookup"], link=IP_SRCS,
       loops=[LOOKUP_LOOP], kind="unbounded", need_classes=["postcondition", "loop_invariant_step"],
       native={}, timeout=2400, object_bits=7),
+    U(id="validate_v4", props=["C01", "C16"], file="units/validate.c", entry="h_validate", defines=["STUB_IP"],
+      enforce=["pfx_table_validate_r"], replace=["trie_lookup", "pfx_table_elem_matches"], loops=[VALIDATE_LOOP], kind="unbounded",
+      need_classes=["postcondition", "loop_invariant_step", "precondition"], native=None, timeout=2400,
+      stubs=["lrtr_ip_addr_get_bits", "lrtr_ip_addr_is_zero", "lrtr_ip_addr_equal", "pthread_rwlock_*"]),
     # ------------------------------------------------------------------ C20
     U(id="c20_state_names", props=["C20"], file="units/c20_state_names.c", entry="h_c20_state",
       enforce=["rtr_state_to_str"], kind="complete", bound=70,
